@@ -26,6 +26,7 @@ type c08Aux struct {
 	Reqs      map[int][]*c08Req // client -> requests
 	Preserve  bool
 	Canceller bool
+	Pipelined int
 }
 
 var c08Methods = []string{"GET", "POST", "PUT", "DELETE", "PATCH", "OPTIONS", "HEAD"}
@@ -272,6 +273,10 @@ func drawC08(t *rapid.T) *Case {
 					}
 				}
 			}
+			if drawBool(t, "early103", 10) {
+				// the back-end sends 103 (Early Hints) before the final response
+				rp.Early = [][2]string{{"Link", "</s-" + drawToken(t, "el", 3) + ".css>; rel=preload"}, {"X-Early", drawToken(t, "ex", 4)}}
+			}
 			if aged && ci == 0 && ri == 0 && proto == "h1" {
 				rp.DelayMS = 1700
 			}
@@ -324,6 +329,22 @@ func drawC08(t *rapid.T) *Case {
 		}
 		if proto == "h2" {
 			cp.Steps = append(cp.Steps, Step{Kind: "h2await", Streams: ids})
+		} else if drawBool(t, "pipeline", 25) {
+			// HTTP/1.1 pipelining: two (or more) requests written before the first answer is read
+			var out []Step
+			for i := 0; i < len(cp.Steps); i++ {
+				st := cp.Steps[i]
+				if st.Kind == "h1req" && i+1 < len(cp.Steps) && cp.Steps[i+1].Kind == "h1req" {
+					nx := cp.Steps[i+1]
+					out = append(out, Step{Kind: "write", Pieces: append(append([][]byte{}, st.Pieces...), nx.Pieces...)},
+						Step{Kind: "h1recv", Tag: st.Tag, Method: st.Method}, Step{Kind: "h1recv", Tag: nx.Tag, Method: nx.Method})
+					i++
+					aux.Pipelined++
+					continue
+				}
+				out = append(out, st)
+			}
+			cp.Steps = out
 		}
 		cp.Steps = append(cp.Steps, Step{Kind: "close"})
 		if drawBool(t, "seg", 25) {
@@ -674,6 +695,24 @@ func oracleC08(w *World, c *Case) {
 					w.Probe("announced_and_late_response_trailers")
 				}
 			}
+			// informational responses: exactly those the back-end sent, with their fields
+			info := clientInfo(w, ci, ri, tag)
+			if len(rp.Early) == 0 {
+				if len(info) > 0 {
+					w.Violate("informational_invented", "informational_invented", "%s: the client received %d informational response(s) (first %d) the back-end never sent", where, len(info), info[0].Status)
+				}
+			} else {
+				if len(info) != 1 || info[0].Status != 103 {
+					w.Violate("informational_lost", "informational_lost", "%s: the back-end sent one 103 before the final response, the client saw %d informational responses %v", where, len(info), info)
+				} else {
+					for _, kv := range rp.Early {
+						if got := sentValues(info[0].Header, kv[0]); !sameStrings(got, []string{kv[1]}) {
+							w.Violate("informational_altered", "informational_altered", "%s: field %s of the 103 response arrived as %q, back-end sent %q", where, kv[0], got, kv[1])
+						}
+					}
+					w.Probe("informational_response_checked")
+				}
+			}
 			w.Probe("exchanges_compared")
 			if len(rq.Spec.Body) >= 1<<20 || len(rp.Body) >= 1<<20 {
 				w.Probe("body_of_a_mebibyte_or_more")
@@ -691,6 +730,22 @@ func truncStrings(ss []string) []string {
 		out[i] = s
 	}
 	return out
+}
+
+func clientInfo(w *World, ci, ri int, tag string) []InfoResp {
+	cl := w.Clients[ci]
+	if cl.NegProto == "h2" {
+		if st := cl.Streams[uint32(2*ri+1)]; st != nil {
+			return st.Info
+		}
+		return nil
+	}
+	for _, r := range cl.Resps {
+		if r.Tag == tag {
+			return r.Info
+		}
+	}
+	return nil
 }
 
 func clientTrailers(w *World, ci, ri int, tag string) map[string][]string {
@@ -717,5 +772,5 @@ func clientTrailers(w *World, ci, ri int, tag string) map[string][]string {
 
 func init() {
 	register(&CheckDef{ID: "C08", Level: "exploration", Engine: "A", Draw: drawC08,
-		Rule: "1-3 clients (raw-frame HTTP/2 with up to 4 requests in flight, or HTTP/1.1 keep-alive), each request with a drawn method (GET/POST/PUT/DELETE/PATCH/OPTIONS/HEAD), path with percent-escapes and sub-delims, net/url-parseable query (repeated keys, empty values, escapes), 0-6 end-to-end header fields (empty, repeated, 1-6 kB, separators), User-Agent present or not, cookies (split into crumbs on HTTP/2), hop-by-hop and Connection-nominated fields, body of 0 / 1 / boundary / up to 3 MiB bytes sent as DATA frames or chunks of drawn sizes, with or without Content-Length, request trailers; back-end response with drawn status (incl. 204/304/HEAD), header set, body of the same size classes written in drawn pieces with flushes, trailers (announced, unannounced, both, two-valued); 30%: a further HTTP/2 client that cancels large downloads part-way; 30%: frame writes held in flight by the controller (write fence), 12%: cancel focus (four cancelled downloads next to streamed multi-frame downloads, all writes fenced); -preserve-host on/off, back-end keep-alive on/off, any write scheduler, segmentation in both directions; delivery order by the controller. Oracle: comparator in both directions (names case-insensitive, values / multiplicity / order exact, hop-by-hop set removed, Host rule, bodies byte-exact, trailers). Non-trivial: at least one request reached the back-end. Distinct: distinct controller action-label sequences."})
+		Rule: "1-3 clients (raw-frame HTTP/2 with up to 4 requests in flight, or HTTP/1.1 keep-alive), each request with a drawn method (GET/POST/PUT/DELETE/PATCH/OPTIONS/HEAD), path with percent-escapes and sub-delims, net/url-parseable query (repeated keys, empty values, escapes), 0-6 end-to-end header fields (empty, repeated, 1-6 kB, separators), User-Agent present or not, cookies (split into crumbs on HTTP/2), hop-by-hop and Connection-nominated fields, body of 0 / 1 / boundary / up to 3 MiB bytes sent as DATA frames or chunks of drawn sizes, with or without Content-Length, request trailers; back-end response with drawn status (incl. 204/304/HEAD), header set, body of the same size classes written in drawn pieces with flushes, trailers (announced, unannounced, both, two-valued); 10%: a 103 (Early Hints) informational response before the final one; 25% of the HTTP/1.1 clients pipeline their requests; 30%: a further HTTP/2 client that cancels large downloads part-way; 30%: frame writes held in flight by the controller (write fence), 12%: cancel focus (four cancelled downloads next to streamed multi-frame downloads, all writes fenced); -preserve-host on/off, back-end keep-alive on/off, any write scheduler, segmentation in both directions; delivery order by the controller. Oracle: comparator in both directions (names case-insensitive, values / multiplicity / order exact, hop-by-hop set removed, Host rule, bodies byte-exact, trailers). Non-trivial: at least one request reached the back-end. Distinct: distinct controller action-label sequences."})
 }
